@@ -29,6 +29,10 @@ type Program struct {
 	Opts     []string          `json:"opts,omitempty"`      // "components"
 	Feat     []string          `json:"feat,omitempty"`
 	Canary   string            `json:"canary,omitempty"` // a value only this program's data contains
+	// Store: how the file set is presented to the engine (see Stores in store.go; "" = plain memfs).
+	// Engine and NewVue mount a bare *memfs.FS accordingly; callers that build the engine
+	// themselves use p.Mount(p.FS()).
+	Store string `json:"store,omitempty"`
 }
 
 // Entries lists the Template entry points.
@@ -46,16 +50,16 @@ var ErrBoom = errors.New("boom failed")
 // Funcs is the function map registered for every program.
 func Funcs() vuego.FuncMap {
 	return vuego.FuncMap{
-		"boom":   func(v any) (any, error) { return nil, ErrBoom },
-		"shout":  func(s string) string { return strings.ToUpper(s) + "!" },
-		"add":    func(a, b int) int { return a + b },
+		"boom":  func(v any) (any, error) { return nil, ErrBoom },
+		"shout": func(s string) string { return strings.ToUpper(s) + "!" },
+		"add":   func(a, b int) int { return a + b },
 		"repeat": func(s string, n int) string {
 			if n < 0 || n > 100 {
 				n = 0 // a panicking user function is the user's defect, not the engine's
 			}
 			return strings.Repeat(s, n)
 		},
-		"isBig":  func(n int) bool { return n > 10 },
+		"isBig": func(n int) bool { return n > 10 },
 	}
 }
 
@@ -79,7 +83,7 @@ func (p Program) Engine(fsys fs.FS) vuego.Template {
 			opts = append(opts, vuego.WithComponents())
 		}
 	}
-	return vuego.NewFS(fsys, opts...)
+	return vuego.NewFS(p.mounted(fsys), opts...)
 }
 
 // Applicable reports whether the program can be run through the entry point.
@@ -130,7 +134,7 @@ func (p Program) RunVue(v *vuego.Vue, entry string, w io.Writer) error {
 
 // NewVue creates a fresh *Vue for the program.
 func (p Program) NewVue(fsys fs.FS) *vuego.Vue {
-	return vuego.NewVue(fsys).Funcs(Funcs())
+	return vuego.NewVue(p.mounted(fsys)).Funcs(Funcs())
 }
 
 // Run renders the program on a fresh engine over a fresh filesystem.
